@@ -292,8 +292,39 @@ def fd_program(rng, nvars, ncons, lo, hi, n_eq=1):
     # now and then a second domain for a variable that already has one (interval vs sparse)
     if rng.random() < 0.35:
         goals.append(["dom", var(rng.choice(vs)), fd_domain(rng, lo, hi)])
+    # now and then a value (or another variable) reaches a constrained variable through an ALIAS that has no
+    # domain and occurs in no constraint: x == a, a == 3 (in any order, either orientation)
+    if rng.random() < 0.3:
+        a = 90
+        v = rng.choice(vs)
+        goals.append(["eq", var(v), var(a)] if rng.random() < 0.6 else ["eq", var(a), var(v)])
+        if rng.random() < 0.75:
+            goals.append(["eq", var(a), ["num", rng.randint(lo, hi)]] if rng.random() < 0.6 else ["eq", ["num", rng.randint(lo, hi)], var(a)])
+        elif nvars >= 2:
+            goals.append(["eq", var(a), var(rng.choice([x for x in vs if x != v]))])
+        rng.shuffle(goals)
+        return [["fresh", [a], goals]]
     rng.shuffle(goals)
     return goals
+
+
+def fd_alias_program(rng):
+    """A constraint on x, a value that reaches x through an alias variable (x == a, a == n), and x's domain:
+    four goals (seven with a second variable) whose every order must give the same answers.  Returns (goals, nq);
+    the alias variables 90/91 are declared by the caller's fresh block."""
+    lo, hi = rng.choice([(1, 3), (0, 2), (-1, 2)])
+    k = lambda: ["num", rng.randint(lo, hi)]
+    two = rng.random() < 0.35
+    x, y, a, b = var(1), var(2), var(90), var(91)
+    if two:
+        c = rng.choice([["neqfd", x, y], ["ltefd", x, y], ["distinctfd", ["list", [x, y]]], ["plusfd", x, y, k()]])
+    else:
+        c = rng.choice([["neqfd", x, k()], ["neqfd", k(), x], ["ltefd", x, k()], ["ltefd", k(), x],
+                        ["plusfd", x, k(), k()], ["minusfd", k(), x, k()], ["distinctfd", ["list", [x, k()]]]])
+    goals = [c, ["eq", x, a], ["eq", a, k()], ["dom", x, ["itv", lo, hi]]]
+    if two:
+        goals += [["eq", y, b], ["eq", b, k()], ["dom", y, ["itv", lo, hi]]]
+    return goals, (2 if two else 1), ([90, 91] if two else [90])
 
 
 def fd_collapse_program(rng):
